@@ -35,7 +35,7 @@ T0 = scen.T0
 
 
 def gen_cases(tier, seed):
-    n = 25 if tier == "quick" else 600
+    n = 80 if tier == "quick" else 1500
     for i in range(n):
         for st in STRATS:
             yield {"seed": seed, "i": i, "strategy": st, "pid": PID}
